@@ -19,11 +19,11 @@ import yaml
 from . import common, l2, recipes
 
 SPEC = {
-    "lean": ["SnowModel.Props.C09", "SnowModel.Props.C09Bridge"],
+    "lean": ["SnowModel.Props.C09", "SnowModel.Props.C09Ren", "SnowModel.Props.C09Bridge"],
     "pins": ["Runtime", "ObjectModel", "OutputHidden"],
-    "technique": "Lean 4 invariant over the L2 interpreter (no `__` table or field is ever appended to the output, for every recipe, chain and fuel; the prefix is looked at only where a row is written) + pinned filter/guard expressions + real-run metamorphic twin (recipe vs its un-hidden renaming) + artefact scan of every output format and the mapping",
-    "level_text": "Machine-checked proof that the reference interpreter never emits a hidden table or field and evaluates hidden fields exactly like visible ones; the two places where the real interpreter looks at the `__` prefix (the write guard in _generate_row and filter_row_values) are pinned from the AST; on the real code every generated recipe is compared with its un-hidden twin (values, counts, references and child rows must be identical after dropping the renamed names) and every artefact of every format (txt, json, csv folder incl. csvw metadata, sql script, sqlite database, CCI mapping) is scanned for `__` identifiers.",
-    "level_note": "Trusted: Lean kernel, py2lean, harness, the artefact decoders (csv, json, sqlite3, a regex scan of the SQL/debug text). `hidden_is_projection` between two *different* recipes is not proved in Lean (it would need a simulation relation across a renaming); it is decided by the metamorphic check. The target of a visible field's lookup may name a hidden table (C16 demands that lookup); it is neither a step nor a field of the mapping and is not flagged.",
+    "technique": "Lean 4 simulation across a renaming (`hidden_is_projection`: a recipe and its un-hidden twin have the same status and the recipe's output is the twin's with the hidden rows/fields dropped, for every chain, fuel and both dialects, up to `outside`; v3 needs the stated safety condition, refutation witness included) + Lean 4 invariant over the L2 interpreter (no `__` table or field is ever appended to the output, for every recipe, chain and fuel; the prefix is looked at only where a row is written) + pinned filter/guard expressions + real-run metamorphic twin (recipe vs its un-hidden renaming) + artefact scan of every output format and the mapping",
+    "level_text": "Machine-checked proof that the reference interpreter never emits a hidden table or field and that hiding is a projection: the run of a recipe and the run of its un-hidden twin are related state by state (the twin's final state is the renamed image, its output projected onto the visible names is the recipe's output, statuses agree), so hidden fields, references, counts and child objects are computed exactly like visible ones; the two places where the real interpreter looks at the `__` prefix (the write guard in _generate_row and filter_row_values) are pinned from the AST; on the real code every generated recipe is compared with its un-hidden twin (values, counts, references and child rows must be identical after dropping the renamed names) and every artefact of every format (txt, json, csv folder incl. csvw metadata, sql script, sqlite database, CCI mapping) is scanned for `__` identifiers.",
+    "level_note": "Trusted: Lean kernel, py2lean, harness, the artefact decoders (csv, json, sqlite3, a regex scan of the SQL/debug text). `hidden_is_projection_partial` is proved for every renaming satisfying `GoodRen` (injective, fixes the interpreter's special names, does not hide visible names; in the v3 dialect additionally: no protected field is a bare-name formula — `hidden_is_projection_refuted` shows this is needed: that is finding D44's mechanism); the metamorphic twin check exercises the same statement on the real code. The target of a visible field's lookup may name a hidden table (C16 demands that lookup); it is neither a step nor a field of the mapping and is not flagged.",
     "assumptions": [],
     "budget": {"quick": 600, "thorough": 3000},
 }
